@@ -198,6 +198,14 @@ class BodyStructure(Writeable):
         self.content_language = content_language
         self.content_location = content_location
 
+    @property
+    def _disposition(self) -> Writeable:
+        disposition = self.content_disposition
+        if disposition is None or not disposition.content_disposition:
+            return Nil()
+        return List([String.build(disposition.content_disposition),
+                     _ParamsList(disposition.params)])
+
     @classmethod
     def empty(cls) -> BodyStructure:
         """Return an empty body structure object.
@@ -260,7 +268,7 @@ class MultipartBodyStructure(BodyStructure):
         parts = [part.extended for part in self.parts]
         return List([_Concatenated(parts), String.build(self.subtype),
                      _ParamsList(self.content_type_params),
-                     String.build(self.content_disposition),
+                     self._disposition,
                      String.build(self.content_language),
                      String.build(self.content_location)])
 
@@ -324,7 +332,7 @@ class ContentBodyStructure(BodyStructure):
                                   fallback=b'7BIT'),
                      Number(self.size),
                      String.build(self.body_md5),
-                     String.build(self.content_disposition),
+                     self._disposition,
                      String.build(self.content_language),
                      String.build(self.content_location)])
 
@@ -384,7 +392,7 @@ class TextBodyStructure(ContentBodyStructure):
                                   fallback=b'7BIT'),
                      Number(self.size), Number(self.lines),
                      String.build(self.body_md5),
-                     String.build(self.content_disposition),
+                     self._disposition,
                      String.build(self.content_language),
                      String.build(self.content_location)])
 
@@ -454,7 +462,7 @@ class MessageBodyStructure(ContentBodyStructure):
                      self.body_structure.extended,
                      Number(self.lines),
                      String.build(self.body_md5),
-                     String.build(self.content_disposition),
+                     self._disposition,
                      String.build(self.content_language),
                      String.build(self.content_location)])
 
